@@ -109,6 +109,7 @@ public:
    std::vector<std::string> departedRoots;    // roots of sessions that have left (must never reappear)
    int hostileConn = -1; int witnessConn = -1; int witnessPingTag = 0; int64_t witnessPingSentAtStep = -1; int witnessOutstanding = -1;
    bool inQuiesce = false;
+   bool recordContent = false; std::vector<std::string> contentLog;   // C10's history-independence differential: everything the clients were sent, in order
    static ServerSim * s_cur;
 
    ServerSim(RunResult & r) : res(r), st(r.stats) {s_cur = this; g_simSelectHandler = &ServerSim::SelectHandler; server = new ReflectServer;}
@@ -307,6 +308,7 @@ public:
    void ClientGot(Conn * c, const MessageRef & m)
    {
       c->msgsReceived++; st.inc("msgs_to_clients");
+      if (recordContent) {const std::string f = Flat(m); TraceHash ch; ch.s(f); char hb[32]; snprintf(hb, sizeof(hb), "%016llx", (unsigned long long) ch.h); contentLog.push_back("conn " + I(c->idx) + " " + hb + " " + std::string(m()->ToString()()).substr(0, 400));}
       if (c->hostile) return;
       th.s("rx"); th.u((uint64_t) c->idx); th.u(m()->what);
       switch(m()->what)
